@@ -115,6 +115,13 @@ impl Shared {
             Inner::R(s) => s.verif_snapshot(),
         }
     }
+    pub fn sched(&self) -> String {
+        match &self.0.borrow().inner {
+            Inner::P(s) => s.verif_sched_state(),
+            Inner::A(s) => s.verif_sched_state(),
+            Inner::R(s) => s.verif_sched_state(),
+        }
+    }
     pub fn len_cap(&self) -> (usize, usize) {
         match &self.0.borrow().inner {
             Inner::P(s) => s.verif_len_capacity(),
@@ -145,7 +152,7 @@ impl Shared {
     }
     /// the `snew …` driver line that creates the model twin of this store
     pub fn snew_line(&self) -> String {
-        let snap = self.snapshot();
+        let snap = self.sched();
         let f = |name: &str| -> String {
             let pat = format!("{name}=");
             let i = snap.find(&pat).unwrap() + pat.len();
@@ -167,7 +174,7 @@ impl Shared {
         }
     }
     pub fn field(&self, name: &str) -> Option<i128> {
-        let snap = self.snapshot();
+        let snap = self.sched();
         let pat = format!(" {name}=");
         let i = snap.find(&pat)? + pat.len();
         snap[i..].split(' ').next()?.parse().ok()
